@@ -44,6 +44,7 @@ INVS = ['TypeOK', 'Bounded', 'ValidAdmitted', 'SuccessIsServers',
         'NoCredentialLeak', 'DisabledUnused']
 ALL = '{"order", "keys", "rsa", "kbd", "mix", "change", "partial", "odd"}'
 WORKERS = 4
+REPLAY_PROCS = 4
 
 # public_key_auth_requested tests "no client keys left" before it looks at
 # the saved RSA certificate: see fixes/C05c_rsa_cert_retry_last_key.patch
@@ -143,8 +144,9 @@ def shape(row):
 
 
 def select(rows, limit, rnd):
-    """Rows to replay: first one row per (section, dialogue shape, outcome),
-    then a seeded shuffle of the rest, section by section in turn."""
+    """Rows to replay: the small sections completely, one row per (section,
+    dialogue shape, outcome) of the others, then a seeded shuffle of the
+    rest, section by section in turn."""
     if limit is None or len(rows) <= limit:
         return list(rows)
     order = list(rows)
@@ -152,7 +154,9 @@ def select(rows, limit, rnd):
     seen, first, rest = set(), [], {}
     for r in order:
         s = shape(r)
-        if s not in seen:
+        if r['cfg']['sec'] in ('rsa', 'odd', 'mix'):    # small: all of them
+            first.append(r)
+        elif s not in seen:
             seen.add(s)
             first.append(r)
         else:
@@ -189,60 +193,80 @@ def ev_list(e):
 
 
 def run(ctx, quick):
+    import multiprocessing
     from harness.drivers import authclient as A
     tier = 'quick' if quick else 'thorough'
     rnd = random.Random(ctx.seed + 5)
     t0 = time.time()
 
+    # worker processes for the replay: forked before any thread exists, after
+    # the key material has been generated (so that all share it)
+    A.pool().warm()
+    procs = multiprocessing.get_context('fork').Pool(REPLAY_PROCS)
+
     # ---- 1. the specification: properties over every configuration, and
     #         the table (oracle rule; the rule as coded for the rsa section)
     pool = ThreadPoolExecutor(max_workers=4)
-    f_tab = pool.submit(tlc_job, 'C05c_tab', dict(Tier=f'"{tier}"'),
-                        INVS + ['EmitRow'], 1)
-    f_live = pool.submit(tlc_job, 'C05c_live',
-                         dict(Tier=f'"{tier}"', Sections=ALL if not quick
-                              else '{"keys", "rsa", "odd"}'),
-                         [], WORKERS, ['Terminates'])
-    f_coded = pool.submit(tlc_job, 'C05c_coded',
-                          dict(Tier=f'"{tier}"', AsCoded='TRUE',
-                               Sections='{"rsa"}'),
-                          [i for i in INVS if i != 'ValidAdmitted'] +
-                          ['EmitRow'], 1)
-    A.pool()                            # key generation meanwhile
-    res = f_tab.result()
-    ctx.require_tlc_ok(f'AuthClient table + invariants Tier={tier}', res)
-    rows = parse_rows(res.output)
-    ctx.require(len(rows) > (3000 if quick else 15000),
-                f'AuthClient table has only {len(rows)} rows')
-    res_c = f_coded.result()
-    ctx.require_tlc_ok('AuthClient rsa section, rule as coded', res_c)
-    coded = {cfg_key(r['cfg']): r for r in parse_rows(res_c.output)}
-    jobs = [(tag, consts, inv, pool.submit(tlc_job, tag, consts, [inv], 2))
-            for tag, consts, inv in sensitivity(quick)]
-
-    # ---- 2. rows against the real client ----
-    limit = 1100 if quick else None
-    budget = 14 if quick else 200       # seconds of replay
-    chosen = select(rows, limit, rnd)
-    n = 0
-    t1 = time.time()
     try:
+        f_tab = pool.submit(tlc_job, 'C05c_tab', dict(Tier=f'"{tier}"'),
+                            INVS + ['EmitRow'], 1)
+        f_coded = pool.submit(tlc_job, 'C05c_coded',
+                              dict(Tier=f'"{tier}"', AsCoded='TRUE',
+                                   Sections='{"rsa"}'),
+                              [i for i in INVS if i != 'ValidAdmitted'] +
+                              ['EmitRow'], 1)
+        f_live = pool.submit(tlc_job, 'C05c_live',
+                             dict(Tier=f'"{tier}"', Sections=ALL if not quick
+                                  else '{"keys", "rsa", "mix", "odd"}'),
+                             [], 2, ['Terminates'])
+        res = f_tab.result()
+        ctx.require_tlc_ok(f'AuthClient table + invariants Tier={tier}', res)
+        rows = parse_rows(res.output)
+        ctx.require(len(rows) > (3000 if quick else 15000),
+                    f'AuthClient table has only {len(rows)} rows')
+        res_c = f_coded.result()
+        ctx.require_tlc_ok('AuthClient rsa section, rule as coded', res_c)
+        coded = {cfg_key(r['cfg']): r for r in parse_rows(res_c.output)}
+        jobs = [(tag, consts, inv,
+                 pool.submit(tlc_job, tag, consts, [inv], 1))
+                for tag, consts, inv in sensitivity(quick)]
+
+        # ---- 2. rows against the real client ----
+        budget = 13 if quick else 220       # seconds of replay
+        chosen = select(rows, None, rnd)
+        rnd.shuffle(chosen)
+        chosen.sort(key=lambda r: r['cfg']['sec'] not in
+                    ('rsa', 'odd', 'mix'))  # the small sections first
+        tasks = []
         for row in chosen:
+            real_ok = A.real_expressible(row['cfg'])
+            backends = ['real'] if real_ok else ['raw']
+            if real_ok and rnd.random() < 0.15:
+                backends.append('raw')
+            tasks.append((row['cfg'], backends))
+        n = 0
+        t1 = time.time()
+        for row, task, observations in zip(
+                chosen, tasks, procs.imap(A.replay_task, tasks, chunksize=8)):
+            n += 1
+            judge(ctx, A, row, coded.get(cfg_key(row['cfg'])), n, task[1],
+                  observations)
             if time.time() - t1 > budget:
                 break
-            n += 1
-            judge(ctx, A, row, coded.get(cfg_key(row['cfg'])), n, rnd)
+        procs.terminate()
         ctx.traces_validated(n)
         ctx.coverage['authclient_rows'] = len(rows)
         ctx.coverage['authclient_rows_replayed'] = n
+        res_l = f_live.result()
+        ctx.require_tlc_ok('AuthClient Terminates (liveness)', res_l)
+        for tag, consts, inv, fut in jobs:
+            ctx.require_tlc_ok(f'AuthClient {tag} {consts} (wrong rule / '
+                               f'witness, expected to violate {inv})',
+                               fut.result(), expect_violation=inv)
     finally:
+        procs.terminate()
+        procs.join()
         pool.shutdown(wait=True)
-    res_l = f_live.result()
-    ctx.require_tlc_ok('AuthClient Terminates (liveness)', res_l)
-    for tag, consts, inv, fut in jobs:
-        ctx.require_tlc_ok(f'AuthClient {tag} {consts} (wrong rule / '
-                           f'witness, expected to violate {inv})',
-                           fut.result(), expect_violation=inv)
     ctx.assumptions += [
         'AuthClient: the application callbacks are the SSHClient defaults '
         'except a keyboard-interactive responder that offers itself once; '
@@ -264,28 +288,24 @@ def run(ctx, quick):
         'fallback has started (witness run StrictDisabled); (3) '
         'preferred_auth=[] means "the server\'s list in the server\'s '
         'order"; (4) the same key held by the agent and listed in '
-        'client_keys is offered twice')
+        'client_keys is offered twice; (5) for an RSA certificate listed by '
+        'the agent, when the server advertises no RSA signature algorithm, '
+        'a second request with the unregistered key type name '
+        '"ssh-rsa-cert-v01@openssh.com-cert-v01@openssh.com" is sent')
     ctx.coverage['authclient_wall_s'] = round(time.time() - t0, 1)
 
 
-def judge(ctx, A, row, coded_row, n, rnd):
+def judge(ctx, A, row, coded_row, n, backends, observations):
     cfg = row['cfg']
-    real_ok = A.real_expressible(cfg)
-    backends = ['real'] if real_ok else ['raw']
-    if real_ok and rnd.random() < 0.15:
-        backends.append('raw')
     want = [ev_list(e) for e in row['dlg']]
     want_coded = [ev_list(e) for e in coded_row['dlg']] if coded_row else None
     desc = A.describe(cfg)
-    for backend in backends:
-        obs = A.run_case(cfg, backend)
+    for backend, obs in zip(backends, observations):
         got = obs['dialogue']
-        if backend == 'real':
-            # the real server logs INFO_RESPONSEs too; a trailing FAILURE /
-            # INFO the client never reacted to cannot exist in the model
-            pass
         key = (cfg['sec'], backend, desc)
         ctx.count(key, nontrivial=len(got) > 2)
+        ctx.coverage['authclient_' + backend] = \
+            ctx.coverage.get('authclient_' + backend, 0) + 1
         replay = {'kind': 'authclient', 'backend': backend, 'cfg': cfg,
                   'spec_dialogue': want, 'spec_outcome': row['out'],
                   'premise': row['premise'], 'observed': obs}
